@@ -49,10 +49,14 @@ CHECKS = {
         text='Lean model of the default SQL renderer tied to the code by differential testing of db.sql and of every '
              'enum/column/index element rendering; model-free oracle reads db.sql back with an independent tokenising DDL reader and '
              'compares types, tables (each exactly once), columns, keys, indexes and COMMENT ON with expectations computed from the '
-             'content. Structural theorems about the model (script_structure, column_pk_component, default_component, '
-             'sql_column_ignores_props).',
+             'content. Theorems: a READER of the DDL written in Lean (PyDBMLModel/SqlRead.lean, text only) provably inverts the renderer '
+             'model - read_render_column / read_render_table / read_render_script (every column in order with name, type, the four flags '
+             'exactly when set, DEFAULT whenever set incl. 0/false/empty, column-level vs ONE table-level PRIMARY KEY, qualified name, '
+             'each table once, nothing else; class: tables without notes/comments/indexes) and same_ddl_same_content (the DDL '
+             'determines the content); the same reader, compiled into the driver, is run on the .sql of the real code. Structural '
+             'theorems script_structure, column_pk_component, default_component, sql_column_ignores_props.',
         note=TB + '; DDL reader (oracle restricted to reader-hygienic names)',
-        technique='Lean model + structural theorems + differential correspondence + DDL-reader oracle'),
+        technique='Lean model + proved DDL reader (inversion theorems) run on the real output + differential correspondence + DDL-reader oracle'),
     'C04': dict(
         level='translation_validation',
         text='Lean model of reference rendering tied to the code by differential testing of the FOREIGN KEY lines of db.sql (with '
